@@ -1,12 +1,12 @@
 CONSTANTS
   NArb = 3
   Thr = {t1}
-  PreCreated = 1
+  PreCreated = 2
   Kinds = {"spawn"}
   TaskStop = TRUE
   AtomicCalls = TRUE
   EagerJoin = TRUE
-  MaxCmds = 4
+  MaxCmds = 3
   MaxSys = 2
   Codes = {0, 7}
   AllowBusy = TRUE
@@ -17,6 +17,7 @@ CONSTANTS
   RunOnArbiterThread = TRUE
   StopBeforeCode = TRUE
   DeregOwnId = TRUE
+  RegBeforeReady = TRUE
   ExecuteOnce = TRUE
   SendFailsWhenGone = TRUE
   JoinWaitsExit = TRUE
